@@ -83,10 +83,12 @@ fn nontrivial(s: &[u32], t: &[u32], ints: &[i32]) -> bool {
 
 pub fn run(tape: &[u8], cx: &Cx) -> Outcome {
     let mut t = Tape::new(tape);
-    let alpha: [u32; 5] = [0x61, 0x62, 0x63, 0, 0x2FFFF];
+    // a, b, c, the alphabet's ends, and the code points that a lossy detour through Rust strings
+    // would confuse (surrogates are SMT characters but not Unicode scalar values; U+FFFD replaces them)
+    let alpha: [u32; 8] = [0x61, 0x62, 0x63, 0, 0x2FFFF, 0xFFFD, 0xD800, 0xDFFF];
     let gen_str = |t: &mut Tape, max: usize| -> Vec<u32> {
         let n = t.choose(max + 1);
-        (0..n).map(|_| alpha[t.weighted(&[6, 5, 3, 1, 1])]).collect()
+        (0..n).map(|_| alpha[t.weighted(&[12, 10, 6, 2, 2, 2, 2, 1])]).collect()
     };
     let s = gen_str(&mut t, 12);
     // pattern: a substring of s, an overlapping repetition, or independent
@@ -169,6 +171,7 @@ pub fn enumerate(thorough: bool, part: usize, parts: usize, sink: &mut EnumSink)
             format!("subject over {{a,b}} of length <= {}, pattern and replacement over {{a,b}} of length <= {}", if thorough { 6 } else { 4 }, if thorough { 4 } else { 3 }),
         ),
         (all_strings(&[0x61, 0x62, 0x63], 3), all_strings(&[0x61, 0x62, 0x63], 2), "subject over {a,b,c} of length <= 3, pattern and replacement of length <= 2".to_string()),
+        (all_strings(&[0x61, 0xFFFD, 0xD800], 3), all_strings(&[0x61, 0xFFFD, 0xD800], 2), "subject over {a, U+FFFD, 0xD800} of length <= 3, pattern and replacement of length <= 2".to_string()),
     ];
     for (subjects, others, desc) in &spaces {
         for (idx, s) in subjects.iter().enumerate() {
